@@ -346,8 +346,12 @@ func verifStreamBytes(sc verifStreamScn, payloads []string) ([]byte, []int) {
 		nl = "\r\n"
 	}
 	var lines []string // each entry is one SSE event (lines joined), without the terminating blank line
+	field := "data: "
+	if sc.Noise == "nospace" {
+		field = "data:" // the space after the colon is optional in SSE
+	}
 	for _, p := range payloads {
-		lines = append(lines, "data: "+p)
+		lines = append(lines, field+p)
 	}
 	truncated := false
 	if sc.Mal != "none" {
